@@ -150,6 +150,7 @@ fn main() {
         "lifer" => vharness::life::run_recv_link_model(seed, n, thorough, &corpus, &dir),
         "lifex" => vharness::life::run_rx(seed, n, thorough, &corpus, &dir),
         "lifeq" => vharness::life::run_flush(&dir),
+        "chanre" => vharness::life::run_channel_reuse(&dir),
         "c05" => vharness::c05::run(seed, n, thorough, &corpus, &dir),
         "txc" => vharness::txc::run(seed, n, thorough, &corpus, &dir),
         "txcm" => vharness::txc::run_model(seed, n, thorough, &corpus, &dir),
@@ -162,6 +163,7 @@ fn main() {
         "sasl" => vharness::sasl::run(seed, n, thorough, &corpus, &dir),
         "saslm" => vharness::sasl::run_model(seed, n, thorough, &corpus, &dir),
         "saslc" => vharness::sasl::run_model_c(seed, n, thorough, &corpus, &dir),
+        "saslp" => vharness::sasl::run_pipelined(seed, n, thorough, &dir),
         "c08" => vharness::c08::run(seed, n, thorough, &corpus, &dir),
         "c08w" => vharness::c08::run_wake(seed, n, &dir),
         "typed" => vharness::typed::run(seed, n, thorough, &corpus, &dir),
